@@ -34,7 +34,7 @@ ASSUMPTIONS = [
     "submit URI and get URIs are not prefixes of one another (otherwise routing by prefix is ambiguous by construction)",
     "known finding uri-append-base-uri (see C04) is attributed when stripping the base URI before decoding makes the message decode",
 ]
-REQUIRED_MONITORS = ["trace.rsa_only", "trace.aes_rand", "trace.aes_hmac", "client.get_task", "peer.saw", "unrelated.rejected", "routing"]
+REQUIRED_MONITORS = ["trace.rsa_only", "trace.aes_rand", "trace.aes_hmac", "trace.rsa_plus_aes", "client.get_task", "peer.saw", "unrelated.rejected", "routing"]
 
 KF_URI = "uri-append-base-uri"
 
@@ -225,8 +225,13 @@ def run_session(case):
                 elif how == "uri":
                     wire = m["verb_get"].encode() + b" /totally/unrelated.html HTTP/1.1\r\nHost: x\r\n\r\n"
                 elif how == "near":
-                    u = m["uris"][0]
-                    wire = m["verb_get"].encode() + b" " + u[:-1].encode() + b" HTTP/1.1\r\nHost: x\r\n\r\n"
+                    u = rng.choice(m["uris"] + [m["submit_uri"]])
+                    verb = m["verb_post"] if u == m["submit_uri"] else m["verb_get"]
+                    # near misses: last character missing, or a sibling that shares everything but the final character(s)
+                    miss = rng.choice([u[:-1], u[:-1] + ".5/status", u[:-1] + "x", u.rstrip("/") + "ted?id=7"])
+                    if miss.startswith(u):
+                        miss = u[:-1]
+                    wire = verb.encode() + b" " + miss.encode() + b" HTTP/1.1\r\nHost: x\r\n\r\nbody"
                 elif how == "swapped":
                     # get verb on the submit URI / post verb on a get URI (only unrelated when the verbs differ)
                     if m["verb_get"] == m["verb_post"]:
@@ -338,6 +343,10 @@ def judge(case, ctx):
         "trace.rsa_only": dict(rsa_private_key=key),
         "trace.aes_rand": dict(aes_rand=client.aes_rand),
         "trace.aes_hmac": dict(aes_key=client.aes_key, hmac_key=client.hmac_key),
+        # partial key material completed from the metadata: the missing HMAC key must be derived at the first check-in
+        "trace.rsa_plus_aes": dict(rsa_private_key=key, aes_key=client.aes_key),
+        # AES key alone can only decrypt without verification
+        "trace.aes_noverify": dict(aes_key=client.aes_key, verify_hmac=False),
     }
     for name, kw in variants.items():
         if ctx:
@@ -345,6 +354,8 @@ def judge(case, ctx):
         dec = c2.C2Http(cfg, **kw)
         got = decode_trace(dec, trace, model, "rsa_private_key" in kw, c2)
         exp = expected_trace(trace, client, peer, obs, "rsa_private_key" in kw)
+        if name == "trace.aes_noverify" and case["seed"] % 4:
+            continue  # sampled: a quarter of the sessions
         for i, (g, e, (direction, wire, what)) in enumerate(zip(got, exp, trace)):
             if what == "unrelated":
                 if ctx:
